@@ -541,12 +541,23 @@ fn eval_numpy(ctx: &Ctx, batch: &NumpyBatch) -> Verdict {
 pub struct CliCase {
     pub shape: Vec<usize>,
     pub to_file: bool,
+    /// put one value whose IEEE-754 bytes contain a line feed (0x0A) at this flat position, all
+    /// other values free of 0x0A (binary data through a line-buffered stdout)
+    #[serde(default)]
+    pub line_feed_at: Option<usize>,
 }
 
 fn eval_cli(ctx: &Ctx, case: &CliCase) -> Verdict {
     let dir = ctx.worker_dir(crate::engine::worker_id());
     let n = elements(&case.shape);
-    let values: Vec<f64> = (0..n as u64).map(|i| (crate::engine::splitmix64(i ^ 0xC15) % 4000) as f64 * 0.125).collect();
+    let mut values: Vec<f64> = (0..n as u64).map(|i| (crate::engine::splitmix64(i ^ 0xC15) % 4000) as f64 * 0.125).collect();
+    if let Some(at) = case.line_feed_at {
+        for (i, v) in values.iter_mut().enumerate() {
+            *v = 1.0 + (i % 7) as f64; // 0x3FF0.., 0x4000.., 0x4008.. ...: no 0x0A byte
+        }
+        let at = at.min(n - 1);
+        values[at] = [4106.0, 3.25, 2053.0][at % 3]; // 0x40B00A.., 0x400A.., 0x40A00A..
+    }
     let spec = crate::model::spec::Spec::new(case.shape.clone(), values.clone());
     std::fs::write(dir.join("in.sfs"), crate::props::common::text_bytes_exact(&spec)).expect("write");
     let _ = std::fs::remove_file(dir.join("out.npy"));
@@ -626,11 +637,18 @@ pub fn check(ctx: &Ctx) -> Check {
         }),
         Box::new(EnumPart {
             name: "cli-writer",
-            rule: "`sfs view -O npy` to stdout and with -o on the residue-sweeping shapes: same validator",
+            rule: "`sfs view -O npy` to stdout and with -o on the residue-sweeping shapes, plus spectra in which one value's bytes contain a line feed followed by more than 1 KiB of LF-free data (binary output through a line-buffered stdout): same validator",
             exhaustive: false,
             cases: Box::new(|ctx| {
                 let step = ctx.tier.pick(2, 1);
-                residue_cases().into_iter().step_by(step).enumerate().map(|(i, c)| CliCase { shape: c.shape, to_file: i % 3 == 0 }).collect()
+                let mut v: Vec<CliCase> = residue_cases().into_iter().step_by(step).enumerate().map(|(i, c)| CliCase { shape: c.shape, to_file: i % 3 == 0, line_feed_at: None }).collect();
+                // a value containing a 0x0A byte followed by more than 1 KiB of LF-free data
+                for (shape, at) in [(vec![300usize], 0usize), (vec![300], 7), (vec![20, 20], 150), (vec![1500], 1000), (vec![9, 9, 9], 2), (vec![5000], 4096)] {
+                    for to_file in [false, true] {
+                        v.push(CliCase { shape: shape.clone(), to_file, line_feed_at: Some(at) });
+                    }
+                }
+                v
             }),
             eval: Box::new(eval_cli),
         }),
